@@ -7,6 +7,8 @@ import (
 	"github.com/ProtonMail/gluon/imap"
 	"pgregory.net/rapid"
 
+	"verif/internal/ev"
+	"verif/internal/kf"
 	"verif/internal/mach"
 )
 
@@ -517,7 +519,17 @@ func (g *gen) command(t *rapid.T, e *env) *cmd {
 		c.boxKey, c.name = pickBox(t, cand).key, fmt.Sprintf("rn%d", g.nName)
 
 	case "delete":
-		cand := nonInbox(m)
+		var cand []*mbox
+
+		for _, b := range nonInbox(m) {
+			if m.delSubClash(b) && kf.Listed(kfDelSubClash) {
+				ev.Excluded(1)
+				continue
+			}
+
+			cand = append(cand, b)
+		}
+
 		if len(cand) == 0 {
 			return nil
 		}
